@@ -69,13 +69,18 @@ def phrases(real):
         pairs=st.lists(st.tuples(st.tuples(st.just("us2p5"), st.integers(2, 12)).map(list),
                                  st.tuples(st.just("us2p5"), st.integers(2, 12)).map(list), st.just(0)).map(list),
                        min_size=3, max_size=5),
-        restrict=st.just(0), post=st.integers(1, 30)))
+        restrict=st.just(0), post=st.integers(1, 30),
+        # what the host does once the device is at high speed: nothing / suspend then resume / suspend then
+        # reset / reset (SE0 through the 200 us window) / confused line after 3 ms / restriction while at HS /
+        # restriction arriving inside the 200 us reset-vs-suspend window
+        then=weighted([(0, 3), (1, 2), (2, 1), (3, 2), (4, 1), (5, 1), (6, 1)]), o1=st.integers(-3, 6), o2=st.integers(-3, 6),
+        o3=st.integers(1, 30)))
     if real:
         elems = st.one_of(line, line, line, setsig, busy, hs, hs_good, long_idle, after_hs)
-        return long_lists(elems, min_size=1, max_size=7, average=4)
+        return long_lists(elems, min_size=1, max_size=6, average=3)
     elems = st.one_of(line, line, line, setsig, setsig, busy, hs, hs, hs_good, hs_good, long_idle, long_idle, after_hs,
                       after_hs)
-    return long_lists(elems, min_size=1, max_size=24, average=10)
+    return long_lists(elems, min_size=1, max_size=16, average=6)
 
 
 def expand(case, T):
@@ -135,6 +140,29 @@ def expand(case, T):
             if ph["restrict"] == 2:
                 pend["fs_only"] = 1
             emit(ph["post"], line_state=0)
+            then = ph.get("then", 0)
+            if then in (1, 2):          # HS idle for 3 ms, bus floats to J: suspend; then resume K / reset SE0
+                emit(T["ms3"] + ph["o1"], line_state=0)
+                emit(T["us200"] + ph["o2"] + 4, line_state=1)
+                emit(ph["o3"], line_state=1)
+                if then == 1:
+                    emit(ph["o3"], line_state=2)
+                    emit(ph["o3"], line_state=0)
+                else:
+                    emit(T["us2p5"] + ph["o2"], line_state=0)
+                    emit(3, line_state=1)
+            elif then in (3, 4):        # reset from high speed / confused line
+                emit(T["ms3"] + ph["o1"], line_state=0)
+                emit(T["us200"] + ph["o2"] + 4, line_state=0 if then == 3 else 2 + (ph["o3"] & 1))
+                emit(ph["o3"], line_state=1)
+            elif then == 6:             # restriction arrives while the device discriminates HS reset from suspend
+                emit(T["ms3"] + ph["o1"] + 4, line_state=0)
+                emit(T["us200"] + ph["o2"] + 4, line_state=0, **{"ls_only" if ph["o1"] & 1 else "fs_only": 1})
+                emit(ph["o3"], line_state=1)
+            elif then == 5:             # restricted while operating at high speed
+                which = "ls_only" if ph["o1"] & 1 else "fs_only"
+                emit(ph["o3"], **{which: 1})
+                emit(ph["o3"], line_state=1, **{which: 0})
     if pend:
         emit(4)
     emit(6)
@@ -185,7 +213,8 @@ class _Base(Sub):
 
 class RealConstants(_Base):
     name = "real"
-    budget = {"quick": 120, "thorough": 3000}
+    budget = {"quick": 48, "thorough": 3000}
+    shrink_budget = 40
     table = O.REAL
     rule = ("USBResetSequencer with the shipped constants, driven by event lists (line-state phrases with durations a "
             "few cycles either side of 2.5 us / 5 us / 200 us / 2.5 ms / 3 ms, SE0 reset + host chirp trains with 0..5 "
@@ -205,10 +234,10 @@ class RealConstants(_Base):
 
 class ScaledConstants(_Base):
     name = "scaled"
-    budget = {"quick": 2500, "thorough": 60000}
+    budget = {"quick": 1000, "thorough": 60000}
     table = O.SCALED
     rule = ("same generator and oracle on a USBResetSequencer subclass whose _CYCLES_* constants are all divided by "
-            "20 (deep FSM exploration: up to 24 phrases per case); non-trivial as for 'real'")
+            "20 (deep FSM exploration: up to 16 phrases per case); non-trivial as for 'real'")
 
     def make_dut(self):
         from luna.gateware.usb.usb2.reset import USBResetSequencer
